@@ -34,9 +34,12 @@ pub struct History {
 /// A set of heads: (author slot, timestamp) – slots map to synthetic author ids.
 #[derive(Serialize, Deserialize, Clone, Debug)]
 pub struct HeadSet {
-    pub heads: Vec<(u8, u64)>,
-    pub other: Vec<(u8, u64)>,
+    pub heads: Vec<(u16, u64)>,
+    pub other: Vec<(u16, u64)>,
     pub limits: Vec<u16>,
+    /// limits placed exactly at / one below / one above the encoded size of the k newest heads: (k as an index, delta)
+    #[serde(default)]
+    pub fit_limits: Vec<(u16, i8)>,
 }
 
 #[derive(Serialize, Deserialize, Clone, Debug)]
@@ -45,14 +48,15 @@ pub enum Case {
     Heads(HeadSet),
 }
 
-fn slot_author(slot: u8) -> AuthorId {
+fn slot_author(slot: u16) -> AuthorId {
     // slots 0..6 are the pool authors (so that they can match replica contents), others synthetic
     if (slot as usize) < N_AUTHORS {
-        author(slot).id()
+        author(slot as u8).id()
     } else {
         let mut b = [0u8; 32];
-        b[0] = slot;
-        b[31] = slot.wrapping_mul(7);
+        b[0] = slot as u8;
+        b[1] = (slot >> 8) as u8;
+        b[31] = (slot as u8).wrapping_mul(7);
         AuthorId::from(&b)
     }
 }
@@ -103,13 +107,23 @@ impl Prop for C13 {
         ];
         let hist = (prop::bool::weighted(0.2), pools(6), vec(step, 1..=max_steps))
             .prop_map(|(file, pools, steps)| Case::History(History { file, pools, steps }));
+        let fit = || vec((any::<u16>(), -1i8..=1), 0..=4);
         let heads = (
-            vec((0u8..13, ts_strategy()), 0..=12),
-            vec((0u8..13, ts_strategy()), 0..=12),
+            vec((0u16..13, ts_strategy()), 0..=12),
+            vec((0u16..13, ts_strategy()), 0..=12),
             vec(prop_oneof![3 => 1u16..120, 1 => 120u16..600], 1..=6),
+            fit(),
         )
-            .prop_map(|(heads, other, limits)| Case::Heads(HeadSet { heads, other, limits }));
-        prop_oneof![1 => hist, 2 => heads].boxed()
+            .prop_map(|(heads, other, limits, fit_limits)| Case::Heads(HeadSet { heads, other, limits, fit_limits }));
+        // large sets: the list-length prefix of the encoding grows to two bytes at 128 kept heads, timestamps of mixed varint width
+        let many = (
+            vec((0u16..400, ts_strategy()), 100..=320),
+            vec((0u16..400, ts_strategy()), 0..=40),
+            vec(prop_oneof![1 => 1u16..600, 3 => 600u16..14000], 1..=4),
+            vec((prop_oneof![1 => any::<u16>(), 1 => 20000u16..34000], -1i8..=1), 1..=6),
+        )
+            .prop_map(|(heads, other, limits, fit_limits)| Case::Heads(HeadSet { heads, other, limits, fit_limits }));
+        prop_oneof![10 => hist, 19 => heads, 1 => many].boxed()
     }
 
     fn check(ctx: &mut Ctx, case: &Case) -> Outcome {
@@ -178,8 +192,22 @@ fn check_heads(h: &HeadSet) -> Outcome {
     // limits
     let mut sorted: Vec<u64> = model.values().copied().collect();
     sorted.sort_by(|a, b| b.cmp(a));
-    for l in &h.limits {
-        let l = *l as usize;
+    let size_of_newest = |k: usize| -> usize { varint_len(k as u64) + sorted[..k].iter().map(|t| 32 + varint_len(*t)).sum::<usize>() };
+    let mut limits: Vec<usize> = h.limits.iter().map(|l| *l as usize).collect();
+    for (kraw, delta) in &h.fit_limits {
+        let k = crate::engine::idx(*kraw, sorted.len() + 1);
+        let l = (size_of_newest(k) as i64 + *delta as i64).max(1) as usize;
+        limits.push(l);
+        o.class("heads/limit-at-an-exact-fit-boundary");
+        if k >= 128 {
+            o.class("heads/exact-fit-with->=128-heads-kept");
+        }
+    }
+    if model.len() >= 128 {
+        o.class("heads/>=128-authors");
+    }
+    for l in &limits {
+        let l = *l;
         // k maximal such that the k newest fit
         let mut k = 0;
         let mut body = 0usize;
@@ -318,7 +346,7 @@ fn check_history(ctx: &mut Ctx, h: &History) -> Outcome {
                     let mut rep = AuthorHeads::default();
                     let mut repm: BTreeMap<AuthorId, u64> = BTreeMap::new();
                     for (slot, t) in report {
-                        let a = if (*slot as usize) < authors.len() { author(authors[*slot as usize]).id() } else { slot_author(*slot + 6) };
+                        let a = if (*slot as usize) < authors.len() { author(authors[*slot as usize]).id() } else { slot_author(*slot as u16 + 6) };
                         rep.insert(a, T0 + *t as u64);
                         let e = repm.entry(a).or_insert(0);
                         *e = (*e).max(T0 + *t as u64);
